@@ -31,6 +31,11 @@ fn full() -> Vec<(u64, &'static str)> {
     vec![(9, H), (9, G), (9, F), (9, E)]
 }
 
+/// Two keys owned by id 9: the only (= current) bucket holds 59 of 64 bytes.
+fn nearly_full() -> Vec<(u64, &'static str)> {
+    vec![(9, H), (9, G)]
+}
+
 fn specs() -> Vec<Spec> {
     use Op::*;
     let s = |name, prefill: Vec<(u64, &'static str)>, prefill_flush, threads| Spec {
@@ -49,6 +54,15 @@ fn specs() -> Vec<Spec> {
         s("rem-rem-same-posting", vec![(1, A), (1, B)], false, vec![vec![Remove(1, A)], vec![Remove(1, A)]]),
         s("append-append-full-bucket", full(), false, vec![vec![Insert(1, H), Insert(1, G)], vec![Insert(2, H)]]),
         s("new-new-full-bucket", full(), false, vec![vec![Insert(1, C)], vec![Insert(2, B)]]),
+        // Last bucket nearly full (59 of 64 bytes): EVERY new key spills into a
+        // freshly allocated bucket, so a second writer can sample the advanced
+        // max_bucket_id between the spiller's fetch_add and its bucket creation.
+        s("spill-vs-new-key", nearly_full(), false, vec![vec![Insert(1, C)], vec![Insert(2, B)]]),
+        s("big-spill-vs-new-key", nearly_full(), false, vec![vec![Insert(1, LONG)], vec![Insert(2, A)]]),
+        s("new-key-then-spill-twice", nearly_full(), false, vec![vec![Insert(1, A), Insert(1, C)], vec![Insert(2, B)]]),
+        s("spill-spill-spill-3", nearly_full(), false, vec![vec![Insert(1, C)], vec![Insert(2, B)], vec![Insert(3, A)]]),
+        s("insarr-spill-vs-new-key", nearly_full(), false, vec![vec![InsertArray(1, vec![C, B])], vec![Insert(2, A)]]),
+        s("insarr-spill-vs-insarr-spill", nearly_full(), false, vec![vec![InsertArray(1, vec![C, A])], vec![InsertArray(2, vec![B])]]),
         s("long-long-migration", vec![(9, A), (9, B), (9, C)], false, vec![vec![Insert(1, LONG)], vec![Insert(2, LONG), Insert(2, A)]]),
         s("ins-vs-compact", full(), false, vec![vec![Insert(1, C), Insert(1, H)], vec![Compact]]),
         s("rem-vs-compact", full(), false, vec![vec![Remove(9, H), Remove(9, E)], vec![Compact]]),
@@ -58,6 +72,12 @@ fn specs() -> Vec<Spec> {
         s("insarr-vs-rem-ins", vec![(1, B)], false, vec![vec![InsertArray(1, vec![A, B, C])], vec![Remove(1, B), Insert(2, A)]]),
         s("insarr-insarr-full-bucket", full(), false, vec![vec![InsertArray(1, vec![C, B])], vec![InsertArray(2, vec![B, C])]]),
         s("remarr-vs-ins", vec![(1, A), (1, B)], false, vec![vec![RemoveArray(1, vec![A, B])], vec![Insert(2, A), Insert(1, B)]]),
+        // Every batch mutator against a compaction that may start while it is
+        // in flight (only the shared gate, held for the whole call, prevents it).
+        s("insarr-new-keys-vs-compact", full(), false, vec![vec![InsertArray(1, vec![C, B])], vec![Compact]]),
+        s("insarr-new-keys-vs-compact-flushed", full(), true, vec![vec![InsertArray(1, vec![C, H])], vec![Compact]]),
+        s("insarr-ins-compact-3", full(), false, vec![vec![InsertArray(1, vec![C, B])], vec![Insert(2, A)], vec![Compact]]),
+        s("batch-update-vs-compact", full(), false, vec![vec![BatchUpdate(9, vec![H], vec![C])], vec![Compact]]),
         s("remarr-vs-compact", full(), false, vec![vec![RemoveArray(9, vec![H, E, F])], vec![Compact]]),
         s("ins-rem-twice", vec![], false, vec![vec![Insert(1, A), Remove(1, A)], vec![Insert(2, A), Remove(2, A)]]),
         s("three-writers-one-key", vec![], false, vec![vec![Insert(1, A)], vec![Insert(2, A)], vec![Remove(1, A)]]),
